@@ -11,11 +11,15 @@
    every pickup and every cancel event in the log was filed for a request that was Waiting at that moment.  Consequence
    (C03_closed_once): after a pickup or a cancellation of an id there is no further pickup or cancellation of that id unless
    the id is admitted again in between: never both, never twice.
-   PARTIAL: "dropped off exactly once, by the same vehicle" over histories (the per-transition facts are in C07/C19). *)
+   Drop-off clause over whole histories (C03_dropoffs_over_histories, C03_dropped_once): every drop-off event in the log was filed
+   by the vehicle that had picked that request up and had not dropped it yet; after a drop-off by a vehicle there is no further
+   drop-off by it until it picks somebody up again; a vehicle in ServicingTrip with road ahead is carrying its request undropped.
+   (That the drop-off happens at the destination: C07_trip_ends_at_destination.  That it eventually happens is not a safety
+   property: a vehicle may run out of energy or the run may end first, as the property says.) *)
 From Hive.Base Require Import Prelude.
 From Hive.Model Require Import Types KernelBase SimOps States Step.
 From Hive.Gen Require Import Kernels.
-From Hive.Proofs Require Import Trip VehFrame Macro LedgerInv.
+From Hive.Proofs Require Import Trip VehFrame Macro LedgerInv DropInv.
 
 Theorem C03_no_divert : forall env s i vid q d l r nx,
   apply_phase2 env s (i, ((vid, ServicingTrip q d (l :: r)), nx)) = s.
@@ -44,7 +48,18 @@ Proof. intros env ops s0 K L O. exact (proj2 (ledger_invariant env (init_of s0) 
 Theorem C03_closed_once : forall init l2 e1 l1 rid, wf init (l2 ++ e1 :: l1) -> closes e1 rid ->
   (forall e, In e l2 -> ~ adds e rid) -> forall e, In e l2 -> ~ closes e rid.
 Proof. exact closed_once. Qed.
+Theorem C03_dropoffs_over_histories : forall env ops s0, vkeys s0 -> Inv_drop s0 -> Forall op_ok ops ->
+  vkeys (fold_left (step_op env) ops s0) /\ Inv_drop (fold_left (step_op env) ops s0).
+Proof. exact drop_invariant. Qed.
+Theorem C03_dropped_once : forall l2 rid vid g t l1, wfd (l2 ++ EvDropoff rid vid g t :: l1) ->
+  (forall e, In e l2 -> match e with EvPickup _ v _ _ _ => v <> vid | _ => True end) ->
+  forall e, In e l2 -> match e with EvDropoff _ v _ _ => v <> vid | _ => True end.
+Proof. exact dropped_once. Qed.
+Theorem C03_dropoffs_initial_state : forall s, log s = [] ->
+  (forall k v, find k (vehicles s) = Some v -> forall q d r, v_state v <> ServicingTrip q d r) -> Inv_drop s.
+Proof. exact Inv_drop_initial. Qed.
 Print Assumptions C03_ledger_over_histories. Print Assumptions C03_closed_once.
+Print Assumptions C03_dropoffs_over_histories. Print Assumptions C03_dropped_once. Print Assumptions C03_dropoffs_initial_state.
 
 Print Assumptions C03_no_divert. Print Assumptions C03_pickup_once.
 Print Assumptions C03_pickup_needs_waiting. Print Assumptions C03_cancel_once.
